@@ -34,7 +34,7 @@ STD_EXC_PARENT = {
 
 
 ALLOC_FUNCS = {"_Znwm", "_Znam", "malloc", "calloc", "_ZnwmRKSt9nothrow_t", "_ZnamRKSt9nothrow_t"}
-INLINE_HANDLED = {"vp_assert", "vp_assume", "vp_reach", "vp_point", "__cxa_throw", "vp_spawn", "__gxx_personality_v0"}
+INLINE_HANDLED = {"vp_assert", "vp_assume", "vp_reach", "vp_point", "__cxa_throw", "vp_spawn", "__gxx_personality_v0", "vp_run_thread"}
 
 
 def san(name):
@@ -661,7 +661,7 @@ class CGen:
             f = m.funcs.get(fn)
             if f is None:
                 continue
-            if fn.startswith("llvm.") or fn in INLINE_HANDLED or (fn in ALLOC_FUNCS and f.is_decl):
+            if fn.startswith("llvm.") or (fn in INLINE_HANDLED and f.is_decl) or (fn in ALLOC_FUNCS and f.is_decl):
                 continue
             if f.is_decl or self.is_opaque_fn(fn):
                 nm = self.gname(fn)
@@ -1407,7 +1407,7 @@ class CGen:
                 lab = self.strlit(args[0]) or '"reach"'
                 st.append("VP_REACH(%s);" % lab)
                 handled = True
-            elif name == "vp_point":
+            elif name == "vp_point" and (f is None or f.is_decl):
                 lab = self.strlit(args[0]) or '"pt"'
                 st.append("VP_POINT(%s);" % lab)
                 handled = True
@@ -1417,6 +1417,13 @@ class CGen:
             elif name == "__cxa_throw":
                 g = self._strip_global(args[1])
                 st.append("vp_throw(%s, VP_TID_%s);" % (self.val(args[0]), san(g[4:])))
+                handled = True
+            elif name == "vp_run_thread":
+                runs = [n for n in self.live_funcs if "_State_impl" in n and n.endswith("6_M_runEv") and n in self.m.funcs and not self.m.funcs[n].is_decl]
+                if len(runs) != 1:
+                    raise IRError("vp_run_thread: expected exactly one std::thread::_State_impl::_M_run, found %d" % len(runs))
+                rf = self.m.funcs[runs[0]]
+                st.append("%s((%s)vp_thr_state);" % (self.gname(runs[0]), self.ctype(rf.params[0][0])))
                 handled = True
             elif name == "vp_spawn":
                 fnv = args[0]
@@ -1437,10 +1444,13 @@ class CGen:
                     else:
                         self.new_helpers["u8"] = 1
                         st.append("%s = (u8*)vp_newc_u8(%d);" % (res, max(nb, 1)))
+                elif name in ("malloc", "calloc"):
+                    # C allocation may fail: requests above the modelled block capacity return NULL instead of tripping the bound
+                    st.append("%s = (%s > VP_HEAP_MAX) ? (u8*)0 : (u8*)vp_new_%s(%s);" % (res, nbytes, san(ct), nbytes))
                 else:
                     st.append("%s = (u8*)vp_new_%s(%s);" % (res, san(ct), nbytes))
                 if name == "calloc":
-                    st.append("vp_memset(%s, 0, %s);" % (res, nbytes))
+                    st.append("if (%s) vp_memset(%s, 0, %s);" % (res, res, nbytes))
                 handled = True
             elif f is not None and (f.is_decl or self.is_opaque_fn(name)):
                 # external: pointer-erased prototype
@@ -1968,7 +1978,7 @@ def translate(ll_path, entries, model_names, opaque=(), race=False, extra_defs="
     mod = parse_file(ll_path)
     g = CGen(mod, opaque=opaque, shared_race=race)
     if entries is None:
-        entries = [n for n, f in mod.funcs.items() if n.startswith("vp_main") and not f.is_decl]
+        entries = [n for n, f in mod.funcs.items() if n.startswith("vp_") and not f.is_decl]
     txt = g.generate(entries, model_names, extra_defs)
     return txt, g
 
